@@ -58,7 +58,7 @@ pub fn case_strategy(which: Which) -> BoxedStrategy<GCase> {
                 cache_w: 0.3,
                 links: which == Which::C01,
                 isolate: false,
-                rf: which == Which::C03,
+                rf: true,
                 max_roots: roots,
             };
             let extra = proptest::collection::vec(
@@ -350,7 +350,7 @@ pub fn check(which: Which, tier: Tier) -> i32 {
     match which {
         Which::C01 => ctx.finish(
             "exploration",
-            "proptest-generated trees (content palette + near-duplicate pairs differing in one byte at stage-boundary offsets, sizes from the boundary set 0..200000, hard links, symlinks) x group configurations (7 hash fns, cache cold+warm, shrinking/keeping/expanding transforms in 5 I/O modes, max-prefix/suffix sizes, pinned ssd/hdd/unknown, thread specs, -H/-S/-L, --min 0); oracle: every listed path is read back by the harness, (transformed) length must equal the printed group length and all members must be byte-identical. Non-trivial = the scanned set contains two equal-length files with different bytes AND the report contains a group with >=2 distinct inodes; distinct by case digest.",
+            "proptest-generated trees (content palette + near-duplicate pairs differing in one byte at stage-boundary offsets, sizes from the boundary set 0..200000, hard links, symlinks) x group configurations (7 hash fns, cache cold+warm, shrinking/keeping/expanding transforms in 5 I/O modes, max-prefix/suffix sizes, pinned ssd/hdd/unknown, thread specs, -H/-S/-L, --rf-over 0..3 / --rf-under / --unique, --min 0); oracle: every listed path is read back by the harness, (transformed) length must equal the printed group length and all members must be byte-identical. Non-trivial = the scanned set contains two equal-length files with different bytes AND the report contains a group with >=2 distinct inodes; distinct by case digest.",
             &["transform helper programs are deterministic pure functions (fcv-tr, cat, tr, head, dd); their outputs are computed natively by the harness", "--skip-content-hash is never generated (explicit exception in the statement)"],
         ),
         Which::C03 => ctx.finish(
